@@ -193,9 +193,11 @@ fn gen_ops_from(rng: &mut Rng, p: Profile, n: usize, roots: u32, wroots: u32, mu
             }),
             K::Flush => occ.live_guard(rng).map(|g| op(K::Flush, g as u32, 0, 0, 0)),
             K::New => Occ::pick(rng, &occ.rc, false).map(|d| {
-                let extra = if rng.chance(0.15) { Occ::pick(rng, &occ.rc, true).map(|x| x as u32).unwrap_or(NONE_SLOT) } else { NONE_SLOT };
+                let extra = if rng.chance(0.2) { Occ::pick(rng, &occ.rc, true).map(|x| x as u32).unwrap_or(NONE_SLOT) } else { NONE_SLOT };
+                // a field initialised through one of the conversion impls instead of the plain-Rc field
+                let conv = if extra != NONE_SLOT && rng.chance(0.4) { 1 + rng.below(4) as u32 } else { 0 };
                 occ.rc[d] = true;
-                op(K::New, d as u32, extra, 0, 0)
+                op(K::New, d as u32, extra, 0, conv)
             }),
             K::NewMany => {
                 let n = rng.below(5) as u32;
@@ -247,7 +249,9 @@ fn gen_ops_from(rng: &mut Rng, p: Profile, n: usize, roots: u32, wroots: u32, mu
             K::Downgrade => match (Occ::pick(rng, &occ.rc, true), Occ::pick(rng, &occ.weak, false)) {
                 (Some(s), Some(d)) => {
                     occ.weak[d] = true;
-                    Some(op(K::Downgrade, s as u32, d as u32, 0, 0))
+                    let g = occ.guard.iter().position(|&x| x);
+                    let via_snapshot = g.is_some() && rng.chance(0.2);
+                    Some(op(K::Downgrade, s as u32, d as u32, g.unwrap_or(0) as u32, via_snapshot as u32))
                 }
                 _ => None,
             },
@@ -275,14 +279,14 @@ fn gen_ops_from(rng: &mut Rng, p: Profile, n: usize, roots: u32, wroots: u32, mu
             K::Counted => match (occ.live_snap(rng), Occ::pick(rng, &occ.rc, false)) {
                 (Some(s), Some(d)) => {
                     occ.rc[d] = true;
-                    Some(op(K::Counted, s as u32, d as u32, 0, 0))
+                    Some(op(K::Counted, s as u32, d as u32, 0, rng.chance(0.3) as u32))
                 }
                 _ => None,
             },
             K::SnapDown => occ.live_snap(rng).map(|s| {
                 let d = rng.below(NWSNAP as u64) as usize;
                 occ.wsnap[d] = occ.snap[s];
-                op(K::SnapDown, s as u32, d as u32, 0, 0)
+                op(K::SnapDown, s as u32, d as u32, 0, rng.chance(0.3) as u32)
             }),
             K::SnapTag => occ.live_snap(rng).map(|s| op(K::SnapTag, s as u32, tagi, 0, 0)),
             K::DerefSnap => occ.live_snap(rng).map(|s| op(K::DerefSnap, s as u32, 0, 0, 0)),
@@ -355,7 +359,7 @@ fn gen_ops_from(rng: &mut Rng, p: Profile, n: usize, roots: u32, wroots: u32, mu
             K::WsCounted => match (occ.live_wsnap(rng), Occ::pick(rng, &occ.weak, false)) {
                 (Some(s), Some(d)) => {
                     occ.weak[d] = true;
-                    Some(op(K::WsCounted, s as u32, d as u32, 0, 0))
+                    Some(op(K::WsCounted, s as u32, d as u32, 0, rng.chance(0.3) as u32))
                 }
                 _ => None,
             },
